@@ -1,5 +1,6 @@
 import LarkVerif.Serialize
 import LarkVerif.Extracted
+import LarkVerif.TableSer
 /-! # C11 — saved, cached and stand-alone parsers behave like the original (serialisation core) -/
 namespace Props.C11
 open SerProto
@@ -31,5 +32,10 @@ theorem load_allowed_are_options : Extracted.loadAllowedOptions.all (fun o => Ex
 theorem structural_options_not_load_allowed :
     (["parser", "lexer", "start", "keep_all_tokens", "maybe_placeholders", "priority", "ambiguity", "import_paths", "strict"].all
       (fun o => !Extracted.loadAllowedOptions.contains o)) = true := by decide
+
+/-- **The parse table survives its own re-encoding, whatever the table**: `ParseTableBase.serialize` renames every row key through an `Enumerator`
+    (first-seen numbering) and `deserialize` looks the numbers up again; for every table — any states, any keys in any order, any actions — the result is
+    the table itself, row order and key order included.  (The real `serialize` output is compared with `TableSer.serialize` on every generated grammar.) -/
+theorem parse_table_reencoding_roundtrip (T : TableSer.Table) : TableSer.deserialize (TableSer.serialize T) = some T := TableSer.roundtrip T
 
 end Props.C11
